@@ -190,9 +190,11 @@ func (in *Interp) ModelValues(m *sym.Model) map[string]string {
 	}
 	for k, v := range m.Vals {
 		name := strings.Trim(k, "|")
+		if strings.HasPrefix(name, "lower:") {
+			continue
+		}
 		if in.atomVars[name] {
-			s, _ := in.AtomString(v)
-			out[name] = s
+			out[name] = in.decodeAtom(name, v, m)
 			continue
 		}
 		out[name] = fmt.Sprintf("0x%x", v)
@@ -201,6 +203,46 @@ func (in *Interp) ModelValues(m *sym.Model) map[string]string {
 		out[strings.Trim(k, "|")] = v
 	}
 	return out
+}
+
+// decodeAtom turns the code of an equality-atom variable into a string: an
+// interned code is its string; any other code is a fresh string, chosen as a
+// case variant of the decoded value of lower(v) when the model fixes that.
+func (in *Interp) decodeAtom(name string, code uint64, m *sym.Model) string {
+	if s, ok := in.AtomString(code); ok {
+		return s
+	}
+	lk, has := m.Vals["|lower:"+name+"|"]
+	if !has || lk == code {
+		return fmt.Sprintf("zzverif%d", code)
+	}
+	base, interned := in.AtomString(lk)
+	if !interned {
+		base = fmt.Sprintf("zzverif%d", lk)
+	}
+	// toggle the case of letters according to the bits of the code until the spelling is new
+	for salt := code; salt < code+4096; salt++ {
+		b := []byte(base)
+		bit := uint(0)
+		changed := false
+		for i := range b {
+			if b[i] >= 'a' && b[i] <= 'z' {
+				if (salt>>bit)&1 == 1 || bit == 0 && salt == code {
+					b[i] -= 32
+					changed = true
+				}
+				bit++
+			}
+		}
+		v := string(b)
+		if !changed {
+			continue
+		}
+		if _, taken := in.atomCodes[v]; !taken {
+			return v
+		}
+	}
+	return fmt.Sprintf("ZZVERIF%d", code)
 }
 
 func (in *Interp) resetInstance() {
